@@ -16,8 +16,10 @@
    no command in between (F14, C05): `C01_rest_survives` speaks about the command sequence the
    client's get_stream sends, which always starts with TYPE. *)
 From Coq Require Import ZArith Bool Arith String List.
+From Coq Require Import QArith.
 From Verif Require Import Lib.Sx Lib.Facts Lib.XferFacts Model.Bytes Model.TransferBytes
-     Proofs.Bytes Proofs.TransferBytes Proofs.TransferBytesGen.
+     Model.TransferTimed Model.XferProg
+     Proofs.Bytes Proofs.TransferBytes Proofs.TransferBytesGen Proofs.TransferTimed Proofs.XferProg.
 From Verif Require Gen.Dispatch Gen.Xfer.
 Import ListNotations.
 Open Scope string_scope.
@@ -196,6 +198,150 @@ Theorem C01_rest_survives : forall hist off0 passive verb off,
 Proof. exact gen_rest_survives. Qed.
 Print Assumptions C01_rest_survives.
 
+(* ---- the transfer loops as translated PROGRAMS ----
+   `xf_*_prog Gen.Xfer.facts` are the bodies of stor_worker / retr_worker / upload() / download()
+   as tools/py2v/gen_xfer.py translates them into the statement language of Lib/XferFacts.v;
+   prog_* (Model/XferProg.v) interpret them.  These theorems are about the translated programs
+   themselves, not about a transcription of them. *)
+Theorem C01_source_programs :
+  xf_stor_prog Gen.Xfer.facts = [XIfOffset [XSeek "FILE"]; XForBlocks "STREAM" "conn.block_size" [XWrite "FILE"]]
+  /\ xf_retr_prog Gen.Xfer.facts = [XIfOffset [XSeek "FILE"]; XForBlocks "FILE" "conn.block_size" [XWrite "STREAM"]]
+  /\ xf_upload_prog Gen.Xfer.facts = ("rb", [XForBlocks "FILE" "block_size" [XWrite "STREAM"]])
+  /\ xf_download_prog Gen.Xfer.facts = ("wb", [XForBlocks "STREAM" "block_size" [XWrite "FILE"]]).
+Proof. exact (conj gen_stor_prog (conj gen_retr_prog (conj gen_upload_prog gen_download_prog))). Qed.
+Print Assumptions C01_source_programs.
+
+(* the hand-written workers of Model/TransferBytes.v are the denotations of those programs *)
+Theorem C01_model_is_program_denotation :
+  (forall table vm off old reads,
+     prog_stor (xf_stor_prog Gen.Xfer.facts) table vm off old reads = stor_worker table vm off old reads)
+  /\ (forall table off content block foracle,
+     prog_retr (xf_retr_prog Gen.Xfer.facts) table off content block foracle
+     = retr_worker table off content block foracle)
+  /\ (forall local cblock coracle,
+     prog_upload (xf_upload_prog Gen.Xfer.facts) local cblock coracle
+     = Some (client_upload_wire local cblock coracle))
+  /\ (forall prev reads,
+     prog_download (xf_download_prog Gen.Xfer.facts) prev reads = Some (client_download_file reads)).
+Proof. exact gen_model_is_program_denotation. Qed.
+Print Assumptions C01_model_is_program_denotation.
+
+Theorem C01_stor_prog_exact : forall verb vm off old block payload reads,
+  verb_mode Gen.Xfer.facts verb = Some vm ->
+  conforming block payload reads ->
+  prog_stor (xf_stor_prog Gen.Xfer.facts) stor_modes vm off old reads = Some (spec_store vm off payload old).
+Proof. exact gen_prog_stor_exact. Qed.
+Print Assumptions C01_stor_prog_exact.
+
+Theorem C01_retr_prog_exact : forall off content block foracle,
+  1 <= block ->
+  prog_retr (xf_retr_prog Gen.Xfer.facts) retr_modes off content block foracle = Some (spec_retr off content).
+Proof. exact gen_prog_retr_exact. Qed.
+Print Assumptions C01_retr_prog_exact.
+
+(* Client.upload(): whatever the local file, the block size and the local short reads, the bytes
+   put on the data connection are the file *)
+Theorem C01_upload_prog_exact : forall local cblock coracle,
+  1 <= cblock ->
+  prog_upload (xf_upload_prog Gen.Xfer.facts) local cblock coracle = Some local.
+Proof. exact gen_prog_upload_exact. Qed.
+Print Assumptions C01_upload_prog_exact.
+
+(* Client.download(): whatever the destination held before, it holds the stream afterwards *)
+Theorem C01_download_prog_exact : forall prev cblock s reads,
+  conforming cblock s reads ->
+  prog_download (xf_download_prog Gen.Xfer.facts) prev reads = Some s.
+Proof. exact gen_prog_download_exact. Qed.
+Print Assumptions C01_download_prog_exact.
+
+(* ---- time: throttles, latency, silence, slow loop bodies do not enter the byte function ----
+   `timing T` is ANY state type with ANY wait / append / work functions (Model/TransferTimed.v);
+   a timed network gives every segment ANY arrival instant; `lat` gives every block ANY latency. *)
+Theorem C01_timed_reads_conforming : forall T (tm : timing T) block rs st t0 net,
+  1 <= block ->
+  conforming block (net_bytes net) (map snd (timed_trace tm block rs st t0 net)).
+Proof. exact timed_trace_conforming. Qed.
+Print Assumptions C01_timed_reads_conforming.
+
+Theorem C01_timed_stor_exact : forall T (tm : timing T) verb vm off old block rs st t0 net,
+  verb_mode Gen.Xfer.facts verb = Some vm -> 1 <= block ->
+  timed_stor tm stor_modes vm off old block rs st t0 net = Some (spec_store vm off (net_bytes net) old).
+Proof. exact gen_timed_stor_exact. Qed.
+Print Assumptions C01_timed_stor_exact.
+
+Theorem C01_stor_timing_irrelevant : forall T1 (tm1 : timing T1) T2 (tm2 : timing T2) verb vm off old
+    block1 rs1 st1 t1 net1 block2 rs2 st2 t2 net2,
+  verb_mode Gen.Xfer.facts verb = Some vm -> 1 <= block1 -> 1 <= block2 ->
+  net_bytes net1 = net_bytes net2 ->
+  timed_stor tm1 stor_modes vm off old block1 rs1 st1 t1 net1
+  = timed_stor tm2 stor_modes vm off old block2 rs2 st2 t2 net2.
+Proof. exact gen_stor_timing_irrelevant. Qed.
+Print Assumptions C01_stor_timing_irrelevant.
+
+(* ... and the timed run stores what the untimed model of C01_stor_exact stores *)
+Theorem C01_timed_stor_is_untimed : forall T (tm : timing T) verb vm off old block rs st t0 net
+    block' segs oracle,
+  verb_mode Gen.Xfer.facts verb = Some vm -> 1 <= block -> 1 <= block' ->
+  concat segs = net_bytes net ->
+  timed_stor tm stor_modes vm off old block rs st t0 net = e2e_stor stor_modes vm off old block' segs oracle.
+Proof. exact gen_timed_stor_is_untimed. Qed.
+Print Assumptions C01_timed_stor_is_untimed.
+
+(* upload_stream / append_stream end to end: the client's (non-empty) chunks under the client's
+   throttle, any latencies, the server's throttle *)
+Theorem C01_timed_upload_exact : forall C (ctm : timing C) T (stm : timing T) verb vm off old chunks
+    cst ct0 lat block rs sst st0,
+  verb_mode Gen.Xfer.facts verb = Some vm -> 1 <= block ->
+  Forall nonempty chunks ->
+  timed_upload ctm stm stor_modes vm off old chunks cst ct0 lat block rs sst st0
+  = Some (spec_store vm off (concat chunks) old).
+Proof. exact gen_timed_upload_exact. Qed.
+Print Assumptions C01_timed_upload_exact.
+
+Theorem C01_timed_retr_exact : forall T (stm : timing T) C (ctm : timing C) off content block foracle
+    sst st0 lat cblock crs cst ct0,
+  1 <= block -> 1 <= cblock ->
+  timed_retr stm ctm retr_modes off content block foracle sst st0 lat cblock crs cst ct0
+  = Some (spec_retr off content).
+Proof. exact gen_timed_retr_exact. Qed.
+Print Assumptions C01_timed_retr_exact.
+
+Theorem C01_retr_timing_irrelevant : forall T1 (stm1 : timing T1) C1 (ctm1 : timing C1)
+    T2 (stm2 : timing T2) C2 (ctm2 : timing C2) off content
+    block1 fo1 sst1 st1 lat1 cblock1 crs1 cst1 ct1
+    block2 fo2 sst2 st2 lat2 cblock2 crs2 cst2 ct2,
+  1 <= block1 -> 1 <= cblock1 -> 1 <= block2 -> 1 <= cblock2 ->
+  timed_retr stm1 ctm1 retr_modes off content block1 fo1 sst1 st1 lat1 cblock1 crs1 cst1 ct1
+  = timed_retr stm2 ctm2 retr_modes off content block2 fo2 sst2 st2 lat2 cblock2 crs2 cst2 ct2.
+Proof. exact gen_retr_timing_irrelevant. Qed.
+Print Assumptions C01_retr_timing_irrelevant.
+
+(* ---- whole paths through the translated programs, timed ---- *)
+(* upload(local) -> wire -> any timed network carrying the wire -> stor_worker's program *)
+Theorem C01_upload_path_exact : forall T (stm : timing T) verb vm off old local cblock coracle wire
+    net block rs sst st0,
+  verb_mode Gen.Xfer.facts verb = Some vm ->
+  1 <= cblock -> 1 <= block ->
+  prog_upload (xf_upload_prog Gen.Xfer.facts) local cblock coracle = Some wire ->
+  net_bytes net = wire ->
+  prog_stor (xf_stor_prog Gen.Xfer.facts) stor_modes vm off old
+            (map snd (timed_trace stm block rs sst st0 net))
+  = Some (spec_store vm off local old).
+Proof. exact gen_upload_path_exact. Qed.
+Print Assumptions C01_upload_path_exact.
+
+(* retr_worker's program -> wire -> any timed network carrying the wire -> download()'s program *)
+Theorem C01_download_path_exact : forall C (ctm : timing C) off content block foracle wire
+    net cblock crs cst ct0 prev,
+  1 <= block -> 1 <= cblock ->
+  prog_retr (xf_retr_prog Gen.Xfer.facts) retr_modes off content block foracle = Some wire ->
+  net_bytes net = wire ->
+  prog_download (xf_download_prog Gen.Xfer.facts) prev
+                (map snd (timed_trace ctm cblock crs cst ct0 net))
+  = Some (spec_retr off content).
+Proof. exact gen_download_path_exact. Qed.
+Print Assumptions C01_download_path_exact.
+
 (* ---- non-vacuity and necessity ---- *)
 (* the hypotheses are satisfiable: a 7-byte payload in three segments, block size 3, short reads *)
 Example C01_nonvacuous_stor :
@@ -240,3 +386,34 @@ Example C01_offset_reused_without_reset :
   offset_after [("rest", "rest"); ("retr", "retr")] ["retr"; "stor"; "appe"]
                [CRest 4; CVerb "retr"; CVerb "retr"] 0 = 4.
 Proof. exact offset_reused_without_reset. Qed.
+
+(* time is not inert in the model: the same three segments read early or late give different
+   read traces (same concatenation) *)
+Example C01_time_changes_the_trace :
+  map snd (timed_trace scripted 4 [] [] 0%Q [(0%Q, [1; 2]%Z); (5%Q, [3%Z]); (9%Q, [4; 5; 6]%Z)])
+    = [[1; 2]; [3]; [4; 5; 6]; []]%Z
+  /\ map snd (timed_trace scripted 4 [] [inject_Z 10] 0%Q [(0%Q, [1; 2]%Z); (5%Q, [3%Z]); (9%Q, [4; 5; 6]%Z)])
+    = [[1; 2; 3; 4]; [5; 6]; []]%Z.
+Proof. exact timing_changes_the_trace. Qed.
+
+(* the interpreter discriminates: one statement away from today's programs *)
+Example C01_prog_without_seek_is_wrong :
+  prog_stor [XForBlocks "STREAM" "conn.block_size" [XWrite "FILE"]] expected_stor_modes WB 2
+            [7; 7; 7; 7]%Z [[1; 2]%Z; []]
+  = Some [1; 2; 7; 7]%Z
+  /\ spec_store WB 2 [1; 2]%Z [7; 7; 7; 7]%Z = [7; 7; 1; 2]%Z.
+Proof. exact prog_without_seek_is_wrong. Qed.
+
+Example C01_prog_seek_after_loop_is_wrong :
+  prog_retr [XForBlocks "FILE" "conn.block_size" [XWrite "STREAM"]; XIfOffset [XSeek "FILE"]]
+            expected_retr_modes 2 [1; 2; 3; 4]%Z 3 []
+  = Some [1; 2; 3; 4]%Z
+  /\ spec_retr 2 [1; 2; 3; 4]%Z = [3; 4]%Z.
+Proof. exact prog_seek_after_loop_is_wrong. Qed.
+
+Example C01_prog_unclassified_has_no_result :
+  prog_stor [XIfOffset [XSeek "FILE"]; XOther "x = 1"; XForBlocks "STREAM" "conn.block_size" [XWrite "FILE"]]
+            expected_stor_modes WB 0 [] [[1%Z]; []] = None
+  /\ prog_stor [XIfOffset [XSeek "FILE"]; XForBlocks "STREAM" "conn.block_size - 1" [XWrite "FILE"]]
+            expected_stor_modes WB 0 [] [[1%Z]; []] = None.
+Proof. exact prog_unclassified_has_no_result. Qed.
